@@ -199,6 +199,17 @@ func (p *c05) Prepare(t *testing.T, tier string, seed uint64) {
 					}
 				}
 			}
+			// an on-path peer first injects a corrupted copy of a device message with
+			// the session's token (with and without hanging up when the server starts
+			// to answer), then lets the genuine message through: the rejected message
+			// must have ended the run (state backend: sqlite, which honours contexts)
+			for _, f := range []string{"inject-flip-then-forward", "inject-flip-hangup-then-forward"} {
+				for _, idx := range []int{0, 1} {
+					pl := base
+					pl.Fault, pl.Dir, pl.Index = f, "d2o", idx
+					plans = append(plans, pl)
+				}
+			}
 			for _, dir := range []string{"d2o", "o2d"} {
 				n := len(bl.lens[dir])
 				for idx := 0; idx < n; idx++ {
@@ -483,7 +494,10 @@ func c05Run(env *Env, pl *C05Plan, base *c05Base) {
 	cfg := tunnelKey(pl.Kex)
 	spec := CipherSpecByName(pl.Cipher)
 	ctx := context.Background()
-	s := NewStd(nil, cfg)
+	injectForward := strings.HasPrefix(pl.Fault, "inject-flip")
+	s, cleanupSql := NewStdSql(nil, cfg, map[string]bool{"owner1": injectForward})
+	defer cleanupSql()
+	injectedResp := 0
 	rec := &ModRecorder{}
 	tap := NewTunnelTap()
 	payloads := [][]byte{[]byte("owner-secret-configuration-0123456789abcdef"), bytes.Repeat([]byte("Z9"), 90)}
@@ -574,6 +588,14 @@ func c05Run(env *Env, pl *C05Plan, base *c05Base) {
 			return
 		}
 		switch pl.Fault {
+		case "inject-flip-then-forward", "inject-flip-hangup-then-forward":
+			b := append([]byte(nil), ev.Body...)
+			b[len(b)-3] ^= 0x10
+			c := &RawClient{Net: s.Net, From: "adversary", To: "owner1", Token: ev.Token, HangUp: pl.Fault == "inject-flip-hangup-then-forward"}
+			tampered = true // before sending: the hook sees the injected request too
+			injectedResp, _, _ = c.Send(ev.MsgType, b)
+			ev.Fault(pl.Fault)
+			return
 		case "bitflip":
 			if pl.Pos/8 >= len(ev.Body) {
 				applicable = false
@@ -671,6 +693,20 @@ func c05Run(env *Env, pl *C05Plan, base *c05Base) {
 		return
 	}
 	o.Nontrivial = true
+	if injectForward {
+		o.Sample = map[string]any{"fault": pl.Fault, "index": pl.Index, "injected_copy_answered": injectedResp, "to2_err": fmt.Sprint(terr)}
+		switch {
+		case injectedResp != 255:
+			o.Class = "INJECTED-COPY-NOT-REJECTED"
+			o.Violate("C05", "altered-message-accepted", "inject|"+spec.Name, "a bit-flipped copy of device message #%d was answered %d (%s/%s)", pl.Index, injectedResp, pl.Kex, pl.Cipher)
+		case terr == nil:
+			o.Class = "RUN-SURVIVED-REJECTION"
+			o.Violate("C05", "rejected-message-did-not-fail-the-run", strings.TrimPrefix(pl.Fault, "inject-flip-"), "the owner rejected a tampered message of this session (255), yet the same TO2 run went on and completed (%s/%s, %s)", pl.Kex, pl.Cipher, pl.Fault)
+		default:
+			o.Class = "rejected-and-run-failed"
+		}
+		return
+	}
 	if storeMethod != pl.Fault {
 		if o.Class == "" {
 			o.Class = "store-error-no-leak"
